@@ -1,5 +1,5 @@
 (* C12 - "pipe yields one output per input, in order, then ends; consumers always wake" (Pipe layer).
-   All four parts hold for every value of the facts (in particular for the current code, [facts_now]).
+   All four parts hold for every value of the facts (in particular for the current code, [facts_unrepaired]).
    Only statements here; proofs are in Data.v, Notify.v, Token.v, Closed.v, Terminal.v. *)
 From stdpp Require Import list numbers option.
 From Pipe Require Import Model Base Data Notify Token Closed Terminal Scenarios Refute.
@@ -34,7 +34,7 @@ Proof. exact consumer_always_woken. Qed.
 Print Assumptions C12_consumer_always_woken.
 
 Example C12_consumer_always_woken_nonvacuous :
-  match run facts_now f100 (init facts_now [1;2] true)
+  match run facts_unrepaired f100 (init facts_unrepaired [1;2] true)
           (replicate 6 AProd ++ [ACPoll; ACons; AItem; AEnv; AEnv] ++ replicate 7 AProd) with
   | Some s => (s.(cst), s.(pending), s.(cwoken), cons_wake_inflight s) = (CPend, [101], false, true)
   | None => False
